@@ -77,6 +77,9 @@ def run(check: Check) -> None:
 
     no_inplace_on_handed_values(check, [f"{c.name}.hedge" for c in check.program.subclasses("Hedge") if "hedge" in c.methods])  # H10
     memoisation_rule(check)  # H8
+    from .common import scalar_is_base_array
+
+    scalar_is_base_array(check)  # the coercion every kernel starts with yields plain arrays
     from ..ordertype import describe, flatten, spec_term
 
     p = check.program
